@@ -40,7 +40,9 @@ AllInDomain(e) == \A i \in DOMAIN e.in : InDomain(Dy(e.in[i]))
 TrSigned ==
   /\ IsOp("signed")
   /\ LET e == Rec[l]
-     IN Judge("signed", Fin(e) /\ (AllInDomain(e) => SignedOK(e.t, In(e, 1), Out(e, 1))),
+         \* mode "fromx": From<Hue<f32>> for f64 / From<Hue<f64>> for f32 - one side is f32, judged at f32 precision
+         tt == IF e.m = "fromx" THEN "f32" ELSE e.t
+     IN Judge("signed", Fin(e) /\ (AllInDomain(e) => SignedOK(tt, In(e, 1), Out(e, 1))),
               "signed: range or congruence")
 
 TrUnsigned ==
